@@ -16,7 +16,7 @@ PROP = dict(
          "alignment is measured on two fixed band-limited signals (exact for symmetric filters)",
     rule="a 'chain' case is one (class, L, M, h): every input letter x framing is processed by a fresh object and the set of integer "
          "phases t (|t| <= len(h)+L+M) with |y[i]-w[iM+t]| <= 1e-12 max|w| is intersected over all runs (empty = violation); each call must "
-         "return len*L/M samples; 'chain.reject': every frame length 0..2M+1 (non-multiples of M must throw); 'getters': next_size / "
+         "return len*L/M samples; 'chain.reject': every frame length 0..2M+1 (non-multiples of M must throw); 'chain.reject.state': one object per (decimating class or FIRResampler mode with M > 1, L, M, h in {default, dense symmetric of length 2, max+1, 2max+3, 4max+1; audio: default, max+1}) is fed good frame, rejected frame (every non-multiple length <= 2M+1 in turn, must throw), good frame, ...; the good frames' outputs must be bit-identical to a fresh object fed the good frames only (a rejected call leaves the converter unchanged); 'getters': next_size / "
          "prev_size for 0..4M, rates, simplify; 'resample.len'/'resample.h': every (p,q,n) resp. (p,q,len(h)) x input lengths "
          "{1,q-1,q,q+1,5q+3,200q}; 'resample.align': every (p,q,n), p != q. Non-trivial = configuration with len(h) >= 2 and L*M > 1, "
          "M > 1 (reject/getters), p != q (resample)",
@@ -38,6 +38,7 @@ PROP = dict(
         "(sigma = 4q input samples) and -phase/(2 pi f) for a tone at 10 % of the narrower Nyquist frequency; both are exact for symmetric "
         "filters, so the polyphase decimator's inherent (M-1)/M advance is inside the bound by construction (margin 1/M)",
         "'approximating the band-limited signal' is only checked weakly: pulse area within [0.5, 2], tone amplitude within [0.25, 2]",
+        "'rejecting' a frame is read as: exception and no state change (checked bit for bit against a fresh object; FIRInterpolator and the interpolating / by-pass modes of FIRResampler have M = 1 and no rejectable length)",
         "resample() inputs have length >= 1",
         "known findings F10/F11 are keyed on the exact failure signature computed by the harness (detail keys f10shift, f11, f11dl): any "
         "other misalignment, exception, wrong length, or the same exception at arguments the floor-padding mechanism does not predict, "
